@@ -20,6 +20,9 @@ fn do_case(case: Vec<i128>) {
                 2 => forms::run::<Tr, u32, Tr, N>(&case),
                 3 => forms::run::<u32, Tr, Tr, N>(&case),
                 4 => forms::run::<forms::Cn, forms::Cn, forms::Cn, N>(&case),
+                8 => forms::run::<forms::P3, forms::P3, forms::P3, N>(&case),
+                9 => forms::run::<forms::H2, u32, u32, N>(&case),
+                10 => forms::run::<u32, forms::H2, forms::P3, N>(&case),
                 6 => forms::run::<harness::track::Tz, harness::track::Tz, harness::track::Tz, N>(&case),
                 7 => forms::run::<Tr, Tr, u32, N>(&case),
                 _ => forms::run::<forms::Zs, forms::Zs, forms::Zs, N>(&case),
@@ -34,7 +37,12 @@ fn do_case(case: Vec<i128>) {
                 emit_oracle(&o);
             }
             if elem == 6 && harness::track::zlive() != 0 {
-                emit_oracle(&format!("zero-sized drop-counted elements: created minus dropped = {} after everything is gone", harness::track::zlive()));
+                let z = harness::track::zlive();
+                if z < 0 {
+                    emit_oracle(&format!("zero-sized drop-counted elements released twice: {} more destructor runs than values were created", -z));
+                } else {
+                    emit_oracle(&format!("zero-sized drop-counted elements lost: created minus dropped = {} after everything is gone", z));
+                }
             }
         }
         Err(m) => {
@@ -44,9 +52,68 @@ fn do_case(case: Vec<i128>) {
     }
 }
 
+/// `--macros`: the repeat forms of the macros with an element whose `Clone::clone` panics at call k (and never):
+/// `box_arr![x; N]` (feature alloc) and `GenericArray::generate(|_| x.clone())`-free forms do their cloning in the
+/// crate's / std's code while the caller's value and the clones already made are owned by the expansion.  Direct
+/// oracle: every identity created (x and every clone made) is released exactly once -- during the unwind, or when
+/// the returned box is dropped.   CASE [-3, form, N, k]   OBS [outcome 0 ok / 2 panicked, created, released]
+fn macro_cases() {
+    use generic_array::typenum::*;
+    use generic_array::{box_arr, GenericArray};
+    use harness::track::{self, Ev, Tr};
+    fn one<F: FnOnce() -> usize>(form: i128, n: usize, k: i128, f: F) {
+        emit_case(&[-3, form, n as i128, k]);
+        track::reset(1000);
+        track::arm_clone(if k >= 0 { Some(k as u64) } else { None });
+        let r = catch(std::panic::AssertUnwindSafe(f));
+        track::arm_clone(None);
+        let mut created: Vec<i64> = vec![];
+        let mut dropped: Vec<i64> = vec![];
+        for e in track::log_from(0) {
+            match e {
+                Ev::New(x) => created.push(x),
+                Ev::Clone(_, to) if to >= 0 => created.push(to),
+                Ev::Drop(x) => dropped.push(x),
+                _ => {}
+            }
+        }
+        created.sort();
+        dropped.sort();
+        emit_obs(&[if r.is_ok() { 0 } else { 2 }, created.len() as i128, dropped.len() as i128]);
+        if created != dropped {
+            emit_oracle(&format!("repeat form {} with N = {} and a clone panic at call {}: created {:?}, released {:?}", form, n, k, created, dropped));
+        }
+        if let Ok(len) = r {
+            if len != n {
+                emit_oracle(&format!("repeat form {}: the result has {} elements, N = {}", form, len, n));
+            }
+        }
+    }
+    macro_rules! forms {
+        ($N:ty, $n:expr) => {
+            for k in -1..($n as i128) {
+                dist("macro_repeat");
+                one(0, $n, k, || { let x = Tr::new(0); let b: Box<GenericArray<Tr, $N>> = box_arr![x; $N]; b.len() });
+                one(1, $n, k, || { let x = Tr::new(0); let b: Box<GenericArray<Tr, _>> = box_arr![x; $n]; b.len() });
+            }
+        };
+    }
+    forms!(U0, 0);
+    forms!(U1, 1);
+    forms!(U2, 2);
+    forms!(U3, 3);
+    forms!(U8, 8);
+    forms!(U33, 33);
+    flush_dist();
+}
+
 fn main() {
     let a = args();
     quiet_panics();
+    if a.extra.iter().any(|x| x == "--macros") {
+        macro_cases();
+        return;
+    }
     if let Some(c) = a.replay {
         do_case(c);
         return;
@@ -65,8 +132,9 @@ fn main() {
                 for pan in -1..(n as i128) {
                     dist(&format!("op{}", op));
                     do_case(vec![op, form, 0, n as i128, pan, 0, 0, mode]);
-                    // generate with zero-sized drop-counted elements
-                    if op == 3 {
+                    // zero-sized drop-counted elements (no identities: the number of destructor runs is what shows)
+                    // (map / zip / fold: the owned receiver form only -- borrowed sources stay with the harness)
+                    if op == 3 || (op <= 2 && form == 0) {
                         dist("zst_counted");
                         do_case(vec![op, form, 6, n as i128, pan, 0, 0, mode]);
                     }
